@@ -137,12 +137,14 @@ struct Case {
     pattern: Vec<usize>,
     tail: usize,
     async_consumer: bool,
+    /// async consumer only: after a not-ready answer, come back with a different buffer
+    fresh_buffer_after_pending: bool,
 }
 
 impl Case {
     fn to_json(&self) -> Json {
         json!({"msg": self.msg, "source": SOURCE_NAMES[self.source as usize], "source_idx": self.source, "payload_len": self.len, "buffer_sizes": self.pattern, "then": self.tail,
-               "consumer": if self.async_consumer { "into_async_read" } else { "into_read" }})
+               "consumer": if self.async_consumer { "into_async_read" } else { "into_read" }, "fresh_buffer_after_pending": self.fresh_buffer_after_pending})
     }
     fn from_json(j: &Json) -> Option<Case> {
         Some(Case {
@@ -152,6 +154,7 @@ impl Case {
             pattern: j["buffer_sizes"].as_array()?.iter().map(|v| v.as_u64().unwrap_or(1) as usize).collect(),
             tail: j["then"].as_u64()? as usize,
             async_consumer: j["consumer"].as_str()? == "into_async_read",
+            fresh_buffer_after_pending: j["fresh_buffer_after_pending"].as_bool().unwrap_or(false),
         })
     }
 }
@@ -287,7 +290,68 @@ fn run_case(c: &Case, msgs: &[Option<Msg>], seed: u64, st: &mut Stats) {
     } else {
         let mut rd = stream_async.unwrap();
         let sizes2 = sizes.clone();
+        let fresh = c.fresh_buffer_after_pending;
         let fut = async move {
+            if fresh {
+                // a consumer that abandons a pending read and comes back with ANOTHER buffer (a dropped read
+                // future, select!, per-call buffers): legal for AsyncRead, which keeps no claim on the buffer
+                let mut out = vec![];
+                let mut calls = 0usize;
+                let mut zeros = 0;
+                let mut i = 0;
+                let mut alt = false;
+                loop {
+                    let base = if i < sizes2.len() { sizes2[i] } else { tail };
+                    let sz = if alt { base / 2 + 1 } else { base };
+                    let mut buf = vec![0xEEu8; sz];
+                    calls += 1;
+                    if calls > 4 * limit_calls {
+                        return Err(format!("no end-of-stream after {} polls", calls));
+                    }
+                    let r = std::future::poll_fn(|cx| match rd.as_mut().poll_read(cx, &mut buf) {
+                        Poll::Pending => Poll::Ready(None),
+                        Poll::Ready(r) => Poll::Ready(Some(r)),
+                    })
+                    .await;
+                    match r {
+                        None => {
+                            // not ready: give the source the chance to wake us, then retry with a different buffer
+                            alt = !alt;
+                            let mut yielded = false;
+                            std::future::poll_fn(|cx| {
+                                if yielded {
+                                    Poll::Ready(())
+                                } else {
+                                    yielded = true;
+                                    cx.waker().wake_by_ref();
+                                    Poll::Pending
+                                }
+                            })
+                            .await;
+                        }
+                        Some(Ok(0)) if sz == 0 => i += 1,
+                        Some(Ok(0)) => {
+                            zeros += 1;
+                            if zeros == 3 {
+                                break;
+                            }
+                        }
+                        Some(Ok(n)) => {
+                            if zeros > 0 {
+                                return Err("data after end-of-stream".into());
+                            }
+                            if n > sz {
+                                return Err(format!("poll_read reported {} bytes for a {}-byte buffer", n, sz));
+                            }
+                            out.extend_from_slice(&buf[..n]);
+                            received.fetch_add(n, SeqCst);
+                            i += 1;
+                        }
+                        Some(Err(e)) => return Err(format!("read error {:?} surfaced through the async interface", e.kind())),
+                    }
+                }
+                return Ok((out, calls));
+            }
             let mut out = vec![];
             let mut calls = 0usize;
             let mut zeros = 0;
@@ -385,7 +449,7 @@ pub fn run(ctx: &Ctx) -> ! {
     let mut rep = Report::new(
         ctx,
         "model_checking",
-        "messages {empty operation group, Print-Job request, Get-Printer-Attributes response, bare IppPayload} x payload source {none, blocking cursor, blocking 1-byte dribbler, blocking with Interrupted, async ready, async fragmented, async not-ready with immediate wake, async not-ready with deferred wake (fired by the manual executor / a helper thread under block_on)} x payload length {0,1,2,8191,8192,8193 (+65536, 3 MiB)} x consumer {into_read, into_async_read} with EVERY sequence of <= 2 (3) buffer sizes over {0,1,2,3,8,H-1,H,H+1,4096,65536} (a zero-length buffer must return 0 without ending the stream) followed by a fixed size from {7,4096,65536} until end-of-stream. Oracle: bytes received == to_bytes() ++ payload, then Ok(0) three times, payload source untouched until the header was delivered. states = distinct (message, source, length, interface); transitions = reads answered by the payload source; non-trivial = non-empty payload",
+        "messages {empty operation group, Print-Job request, Get-Printer-Attributes response, bare IppPayload} x payload source {none, blocking cursor, blocking 1-byte dribbler, blocking with Interrupted, async ready, async fragmented, async not-ready with immediate wake, async not-ready with deferred wake (fired by the manual executor / a helper thread under block_on)} x payload length {0,1,2,8191,8192,8193 (+65536, 3 MiB)} x consumer {into_read, into_async_read, into_async_read coming back with a DIFFERENT buffer after every not-ready answer} with EVERY sequence of <= 2 (3) buffer sizes over {0,1,2,3,8,H-1,H,H+1,4096,65536} (a zero-length buffer must return 0 without ending the stream) followed by a fixed size from {7,4096,65536} until end-of-stream. Oracle: bytes received == to_bytes() ++ payload, then Ok(0) three times, payload source untouched until the header was delivered. states = distinct (message, source, length, interface); transitions = reads answered by the payload source; non-trivial = non-empty payload",
     );
     rep.assume("deferred wake-ups under the blocking interface are fired by a helper OS thread (block_on must be woken from outside); its timing does not influence the byte stream");
     let msgs = messages();
@@ -424,7 +488,7 @@ pub fn run(ctx: &Ctx) -> ! {
     }
     let tails: [usize; 3] = [7, 4096, 65536];
     let lens: Vec<usize> = vec![0, 1, 2, 8191, 8192, 8193];
-    let radices = [msgs.len() as u64, N_SOURCES, lens.len() as u64, patterns.len() as u64, tails.len() as u64, 2];
+    let radices = [msgs.len() as u64, N_SOURCES, lens.len() as u64, patterns.len() as u64, tails.len() as u64, 3];
     let total = vmc::explore::product(&radices);
     for p in par_range(ctx.threads, total, 64, Stats::new, |st, idx| {
         let t = vmc::explore::unrank(idx, &radices);
@@ -434,8 +498,12 @@ pub fn run(ctx: &Ctx) -> ! {
             len: lens[t[2] as usize],
             pattern: patterns[t[3] as usize].clone(),
             tail: tails[t[4] as usize],
-            async_consumer: t[5] == 1,
+            async_consumer: t[5] >= 1,
+            fresh_buffer_after_pending: t[5] == 2,
         };
+        if t[5] == 2 && !(c.source == 6 || c.source == 7) {
+            return; // the buffer-switching consumer only differs when the source reports not-ready
+        }
         if c.source == 0 && t[2] != 0 {
             return; // "none" has no length dimension
         }
@@ -460,6 +528,7 @@ pub fn run(ctx: &Ctx) -> ! {
                 pattern: pats[t[3] as usize].clone(),
                 tail: [4096usize, 65536][t[4] as usize],
                 async_consumer: t[5] == 1,
+                fresh_buffer_after_pending: false,
             };
             if c.source == 7 && !c.async_consumer && !c.pattern.is_empty() {
                 return;
